@@ -4,6 +4,7 @@ package main
 // print identity of every printable syntax-tree node, evaluation identity of corpus expressions.
 
 import (
+	"regexp"
 	"context"
 	"fmt"
 	"math"
@@ -324,6 +325,26 @@ func (d *c18Diff) run(in c18Input, prep, ansi bool) {
 		if tokenNumberRune {
 			key = "print-reparse:token-number-code-point"
 		}
+		// the four known print-reparse findings are identified by what is wrong with the printed text, not by the
+		// node type alone: any other failure on a node of these types is reported under its own key
+		switch key {
+		case "print-reparse:AnalyticFunction":
+			if !strings.Contains(ctext, "IGNORE NULLS)") {
+				if c18QuotedCallee.MatchString(in.Src) {
+					key = "print-reparse:Function" // the quoted name of a user-defined function printed without its quotation marks
+				} else {
+					key += ":other"
+				}
+			}
+		case "print-reparse:Placeholder":
+			if !strings.Contains(ctext, "?{") {
+				key += ":other"
+			}
+		case "print-reparse:Function", "print-reparse:AggregateFunction":
+			if !c18QuotedCallee.MatchString(in.Src) {
+				key += ":other"
+			}
+		}
 		cc := map[string]interface{}{"kind": "round-trip", "origin": in.Origin, "src": in.Src, "prepared": prep, "ansi_quotes": ansi, "node": c18TypeName(cn), "printed": ctext, "detail": cdetail, "tags": []string{key}}
 		d.violation(key, fmt.Sprintf("%s: String() of a %s node gives %q, which %s (%s)", key, c18TypeName(cn), ctext,
 			map[string]string{"print-reparse": "does not parse", "print-differs": "parses to a tree that prints differently", "print-panic": "panics"}[ck], cdetail), cc)
@@ -344,6 +365,9 @@ func (d *c18Diff) run(in c18Input, prep, ansi bool) {
 		d.tableIdentity(in, res.stmts[0], prep, ansi)
 	}
 }
+
+// a function called through a quoted identifier: `user fn`(  or, with ANSI quotes, "user fn"(
+var c18QuotedCallee = regexp.MustCompile("[`\"]\\s*\\(")
 
 func c18Fields(st parser.Statement) []parser.QueryExpression {
 	sq, ok := st.(parser.SelectQuery)
